@@ -103,6 +103,15 @@ func init() {
 		}
 		return []Val{r, {Typ: tBool, Comps: []Term{ok}}}
 	}
+	// logging: the logger is assumed effect-free on program state (arguments are still evaluated by the caller)
+	for _, m := range []string{"Debug", "Info", "Warn", "Error", "Log", "DebugContext", "InfoContext", "WarnContext", "ErrorContext"} {
+		externModels["log/slog.(*Logger)."+m] = func(f *Frame, instr ssa.Instruction, st *State, args []Val, pos token.Pos) []Val { return nil }
+	}
+	for _, m := range []string{"String", "Int", "Int64", "Uint64", "Any", "Bool", "Duration", "Time", "Float64", "Group"} {
+		externModels["log/slog."+m] = func(f *Frame, instr ssa.Instruction, st *State, args []Val, pos token.Pos) []Val {
+			return []Val{f.g.freshVal("attr", instr.(ssa.Value).Type())}
+		}
+	}
 	// sync primitives: sequential semantics (assumption A5)
 	for _, k := range []string{
 		"(*sync.Mutex).Lock", "(*sync.Mutex).Unlock", "(*sync.RWMutex).Lock", "(*sync.RWMutex).Unlock",
